@@ -213,7 +213,9 @@ class EnvModel:
 
         def rec(st, n, acc):
             if n == len(cands):
-                yield from self.sort_entries(st, acc, descending)
+                # Bucket keys with a numeric part are serde-JSON decimal strings in this code base (to_vec(&batch_id)):
+                # the storage iterates them in byte order of the decimal text ("10" < "9"); Map<u64> keys are big-endian.
+                yield from self.sort_entries(st, acc, descending, declex=(fam[0] == 'B'))
                 return
             i, e = cands[n]
             from .summaries import z3_and
@@ -222,8 +224,15 @@ class EnvModel:
                 yield from rec(st2, n + 1, acc + [(e.key[len(prefix):], e.val)] if t else acc)
         yield from rec(st, 0, [])
 
-    def sort_entries(self, st, items, descending=False):
+    def sort_entries(self, st, items, descending=False, declex=False):
         I = self.I
+
+        def num_less(x, y):
+            if not declex:
+                return x < y
+            if isinstance(x, int) and isinstance(y, int):
+                return str(x) < str(y)
+            return dec_lex_less(x, y)
 
         def less(st, a, b):
             # lexicographic on terms
@@ -241,7 +250,7 @@ class EnvModel:
                     else:
                         yield st, x[1] < y[1]
                     return
-                for st2, lt in I.truth(st, x[1] < y[1]):
+                for st2, lt in I.truth(st, num_less(x[1], y[1]) if x[0] == 'n' else x[1] < y[1]):
                     if lt:
                         yield st2, True
                     else:
@@ -270,6 +279,25 @@ class EnvModel:
             for st2, d2 in insert(st, done, rest[0], len(done)):
                 yield from rec(st2, d2, rest[1:])
         yield from rec(st, [], items)
+
+
+def dec_scaled(x):
+    """(x left-aligned to 20 decimal digits, number of digits) for 0 <= x < 2^64"""
+    if isinstance(x, int):
+        d = len(str(x))
+        return x * 10 ** (20 - d), d
+    sc, dg = x * 1, z3.IntVal(20)
+    for d in range(19, 0, -1):
+        sc = z3.If(x < 10 ** d, x * 10 ** (20 - d), sc)
+        dg = z3.If(x < 10 ** d, z3.IntVal(d), dg)
+    return sc, dg
+
+
+def dec_lex_less(x, y):
+    """byte order of the decimal texts of two u64 values"""
+    sx, dx = dec_scaled(x)
+    sy, dy = dec_scaled(y)
+    return z3.Or(sx < sy, z3.And(sx == sy, dx < dy))
 
 
 def fam_name(fam):
